@@ -95,8 +95,8 @@ N_SHARDS = 16
 
 
 def plan(tier, seed):
-    sets = 20000 if tier == "quick" else 2400000
-    histories = 1000 if tier == "quick" else 120000
+    sets = 20000 if tier == "quick" else 1200000
+    histories = 1000 if tier == "quick" else 60000
     shards = [{"part": p, "parts": N_SHARDS, "sets": sets, "histories": histories, "label": "messages-%d" % p} for p in range(N_SHARDS)]
     # one more process for the long run: > 2^16 (2^17) judged operations on one packer / parser
     return shards + [{"longrun": ((1 << 16) if tier == "quick" else (1 << 17)) + 100, "label": "longrun"}]
